@@ -13,9 +13,9 @@ EXPLANATION = (
     "segments whose blank runs are symbolic over {space, tab} vs their space twins."
 )
 BOUNDS = {
-    "quick": "(1) normalize on 3 free characters; 2-line documents with 2 free characters and symbolic line-ending spelling per line; (2a) 4 free characters "
+    "quick": "(1) normalize on 3 free characters; 3 documents with 1 free character and symbolic line-ending spelling per line; (2a) 3 free characters "
              "over {space, tab, >, -, 1, ., x, newline}; (2b) 10 segment layouts, blank runs of 1-2 symbolic characters",
-    "thorough": "(1) 4 free characters; (2a) 5 free characters; (2b) 16 layouts, runs of 1-3 characters, second line added",
+    "thorough": "(1) 4 free characters; (2a) 4 free characters; (2b) 16 layouts, runs of 1-3 characters, second line added",
 }
 OUTSIDE = "tabs that are not structural (inside text); more than three container segments; blank runs wider than 4 columns (statement bound)"
 ASSUMPTIONS = ["(2a)/(2b): leading whitespace of verbatim block lines and of inline-content continuation lines is ignored (statement)",
@@ -302,12 +302,14 @@ def jobs(tier, seed):
     le_docs = [[{"v": "a"}, "<NL>", {"v": "b"}, "<NL>"], ["- ", {"v": "a"}, "<NL>", "<NL>", "  ", {"v": "b"}, "<NL>"],
                ["```", "<NL>", {"v": "a"}, "<NL>", "```", "<NL>", {"v": "b"}], ["> ", {"v": "a"}, "  ", "<NL>", "> b", "<NL>", "<NL>", "c"],
                ["[r]: /u", "<NL>", "'", {"v": "a"}, "<NL>", "t'", "<NL>", "<NL>", "[r]", "<NL>"], ["a|b", "<NL>", "-|-", "<NL>", {"v": "a"}, "|2", "<NL>"]]
-    for sc in (le_docs if tier == "thorough" else le_docs[:4]):
+    if tier == "quick":
+        le_docs = [[{"v": "a"}, "<NL>", "b", "<NL>"], ["- a", "<NL>", "<NL>", "  ", {"v": "a"}, "<NL>"], ["```", "<NL>", {"v": "a"}, "<NL>", "```", "<NL>", "b"]]
+    for sc in le_docs:
         jobs.append({"harness": "line_endings", "params": {"cfg": JS, "scaffold": sc, "nlines": sc.count("<NL>"), "spec": spec},
                      "weight": 8, "cpu_cap": 2400, "wall_cap": 3600})
     for sc in ([{"v": "a"}, "<NUL>", {"v": "b"}, "\n"], ["# <NUL>", {"v": "a"}, "\n\n`<NUL>`\n"], ["[", {"v": "a"}, "<NUL>](/u<NUL>)\n"]):
         jobs.append({"harness": "nul", "params": {"cfg": JS, "scaffold": sc, "spec": {}}, "weight": 6, "cpu_cap": 2400, "wall_cap": 3600})
-    kt = 4 if tier == "quick" else 5
+    kt = 3 if tier == "quick" else 4
     tspec = {n: {"alphabet": TABALPHA} for n in "abcdefgh"}
     for first in TABALPHA:
         sp = {k_: dict(v) for k_, v in tspec.items()}
